@@ -61,7 +61,7 @@ def parse_fields(buf, pos, strict=True):
 # ri_whfast.p_jh holds Jacobi/heliocentric coordinates: positions, velocities, accelerations and masses.
 # Its ax,ay,az (within-step scratch, unassigned in non-Jacobi coordinates) and r / last_collision / hash members are never assigned by the integrator (uninitialised heap bytes end up in
 # the file); they are not quantities of the simulation.
-PJH_MASK = PARTICLE_MASK + [(48, 24), (80, 8), (88, 8), (104, 4)]
+PJH_MASK = PARTICLE_MASK  # (was: + ax..az, r, last_collision, hash while those were uninitialised heap bytes; fixed in /repo)
 
 
 def mask_field(typ, payload):
